@@ -147,12 +147,14 @@ def elems (env : Env) (E : Ty) (ss ds : Val) (n : St) : Res (Val × St) :=
   | _, _ => .panic
 termination_by (sizeOf ss, 2)
 
-/-- `for k, v := range src { genField(V, v, dst[k]) }` -/
+/-- `for k, v := range src { var dst_value V; genField(V, v, dst_value); dst[k] = dst_value }`: the copy of a
+value is built in a variable of its own (F68), so what the destination held under `k` is never its prior
+(for a copyable `V` the value is assigned as it is and the prior does not matter either) -/
 def entries (env : Env) (V : Ty) (ss ds : Val) (n : St) : Res (Val × St) :=
   match ss with
   | .snil => .ok (ds, n)
   | .scons (.pair k v) ss' => do
-      let (v', n1) ← field env V v (mapGet k (zeroVal env (zfuel env) V) ds) n
+      let (v', n1) ← field env V v (zeroVal env (zfuel env) V) n
       entries env V ss' (mapSet k v' ds) n1
   | _ => .panic
 termination_by (sizeOf ss, 2)
